@@ -159,6 +159,8 @@ pub open spec fn nm_shape_ok<TC: Configuration>(label: NodeLabel, p: NonMembersh
     &&& p.longest_prefix_membership_proof.hash_val == TC::spec_parent(
             p.longest_prefix_children[0].value, TC::spec_label_value(p.longest_prefix_children[0].label),
             p.longest_prefix_children[1].value, TC::spec_label_value(p.longest_prefix_children[1].label))
+    // the two remaining checks of the verifier (common/lcp_rel.rs): label differs from both reported children; lcp(children) is the anchor
+    &&& nm_extra::<TC>(p)
 }
 pub proof fn lemma_nm_shape<TC: Configuration>(st: int, epoch: u64, label: NodeLabel, n: TreeNode, p: NonMembershipProof)
     requires
@@ -187,6 +189,87 @@ pub proof fn lemma_nm_shape<TC: Configuration>(st: int, epoch: u64, label: NodeL
             assert(!pfx(cl, label));
         } else {
             assert(p.longest_prefix_children[j].label == TC::spec_empty_label());
+        }
+    }
+    lemma_nm_extra::<TC>(st, epoch, label, n, p);
+}
+// what `shaped` says about one stored node (kept separate so that the users need not reveal the whole predicate)
+pub proof fn lemma_shape_of(st: int, epoch: u64, n: TreeNode)
+    requires shaped(st, epoch), stored(st, n.label, epoch) == Ok::<TreeNode, StorageError>(n)
+    ensures
+        canon(n.label),
+        (n.node_type is Leaf) <==> n.label.label_len == 256,
+        n.label != root_label() && !(n.node_type is Leaf) ==> n.left_child is Some && n.right_child is Some,
+        forall|d: Direction| (#[trigger] child_in(n, d)) is Some ==> {
+            let cl = child_in(n, d)->Some_0;
+            &&& canon(cl) && n.label.label_len < cl.label_len && agree(n.label, cl, n.label.label_len as int)
+            &&& bit(cl, n.label.label_len as int) == (d is Right)
+            &&& stored(st, cl, epoch) is Ok
+        },
+{
+    reveal(shaped);
+    assert(stored(st, n.label, epoch) is Ok);
+}
+// bit-level core of check (4): two labels that extend nl by 0 resp. 1 have nl as their longest common prefix
+pub proof fn lemma_lcp_children(nl: NodeLabel, l: NodeLabel, rr: NodeLabel, r: NodeLabel, k: int)
+    requires
+        canon(nl), nl.label_len < l.label_len, nl.label_len < rr.label_len, wf(l), wf(rr),
+        agree(nl, l, nl.label_len as int), agree(nl, rr, nl.label_len as int),
+        !bit(l, nl.label_len as int), bit(rr, nl.label_len as int),
+        is_lcplen(l, rr, k), is_prefix_n(r, l, k),
+    ensures r == nl
+{
+    let m = nl.label_len as int;
+    if k > m { assert(bit(l, m) == bit(rr, m)); }
+    if k < m { assert(bit(l, k) == bit(nl, k)); assert(bit(rr, k) == bit(nl, k)); }
+    assert(k == m);
+    assert forall|i: int| 0 <= i < m implies bit(r, i) == bit(nl, i) by { assert(bit(r, i) == bit(l, i)); assert(bit(nl, i) == bit(l, i)); }
+    assert(agree(r, nl, m));
+    lemma_label_ext(r, nl);
+}
+// checks (1) and (4): the label differs from both reported children, and whatever get_longest_common_prefix may return for the two
+// reported child labels is - after the verifier's empty-label -> root normalisation - the anchor
+pub proof fn lemma_nm_extra<TC: Configuration>(st: int, epoch: u64, label: NodeLabel, n: TreeNode, p: NonMembershipProof)
+    requires
+        consistent::<TC>(st, epoch), shaped(st, epoch), TC::spec_empty_label().label_len == 0,
+        stored(st, n.label, epoch) == Ok::<TreeNode, StorageError>(n), deepest(st, epoch, label, n), n.label != label, label.label_len == 256,
+        p.label == label, p.longest_prefix == n.label,
+        p.longest_prefix_children[0] == reported_child::<TC>(st, epoch, n, Direction::Left),
+        p.longest_prefix_children[1] == reported_child::<TC>(st, epoch, n, Direction::Right),
+    ensures nm_extra::<TC>(p)
+{
+    lemma_shape_of(st, epoch, n);
+    let c0 = p.longest_prefix_children[0].label;
+    let c1 = p.longest_prefix_children[1].label;
+    let e = TC::spec_empty_label();
+    let lc = child_in(n, Direction::Left);
+    let rc = child_in(n, Direction::Right);
+    // what the two reported labels are
+    assert(c0 == (match lc { Some(cl) => cl, None => e })) by {
+        if lc is Some { lemma_label_of::<TC>(st, epoch, lc->Some_0); }
+    }
+    assert(c1 == (match rc { Some(cl) => cl, None => e })) by {
+        if rc is Some { lemma_label_of::<TC>(st, epoch, rc->Some_0); }
+    }
+    // (1)
+    assert(label != c0 && label != c1) by {
+        reveal(deepest);
+        if label == c0 || label == c1 { lemma_pfx_refl(label); }
+    }
+    // (4)
+    assert forall|r: NodeLabel| #[trigger] lcp_rel::<TC>(c0, c1, r) implies (if r == e { is_root(n.label) } else { r == n.label }) by {
+        if lc is Some && rc is Some {
+            let l = lc->Some_0;
+            let rr = rc->Some_0;
+            assert(l.label_len > 0 && rr.label_len > 0);
+            let k = choose|k: int| #[trigger] is_lcplen(l, rr, k) && is_prefix_n(r, l, k);
+            lemma_lcp_children(n.label, l, rr, r, k);
+        } else {
+            // only the root may lack a child
+            assert(n.label.label_len < 256) by { if n.label.label_len == 256 { reveal(deepest); lemma_label_ext_pfx(n.label, label); } }
+            assert(n.label == root_label());
+            axiom_root_label();
+            assert(r == e);
         }
     }
 }
